@@ -232,3 +232,10 @@ impl<P: Prefix, T> Table<P, T> {
         }
     }
 }
+
+#[cfg(feature = "verif-hooks")]
+impl<P, T> Table<P, T> {
+    pub(crate) fn __verif_new(v: Vec<Node<P, T>>) -> Self {
+        Self(UnsafeCell::new(v))
+    }
+}
